@@ -158,6 +158,7 @@ def default_overrides():
 
     def isclose(I, args, kwargs):
         # tolerance-based closeness is abstracted to exact equality of reals
+        I.tolerance_calls = getattr(I, "tolerance_calls", 0) + 1
         return I.equal(args[0], args[1])
 
     return {"my_math.isclose": isclose}
